@@ -144,6 +144,32 @@ type Oracle interface {
 	Cmp(a, b int) int
 }
 
+// ConstOracle additionally places a symbol relative to integer constants.
+type ConstOracle interface {
+	Oracle
+	CmpConst(sym int, c constant.Value) (int, bool)
+}
+
+// pointOracle abstracts "the symbol lies in the segment represented by rep":
+// between two neighbouring constants of a comparison-only function every
+// comparison has one truth value, so one representative decides the segment.
+type pointOracle struct{ rep int64 }
+
+func (p pointOracle) Cmp(a, b int) int { return 0 }
+func (p pointOracle) CmpConst(sym int, c constant.Value) (int, bool) {
+	v, ok := constant.Int64Val(constant.ToInt(c))
+	if !ok {
+		return 0, false
+	}
+	switch {
+	case p.rep < v:
+		return -1, true
+	case p.rep > v:
+		return 1, true
+	}
+	return 0, true
+}
+
 const (
 	symBot = -1 // math.MinInt64
 	symTop = -2 // math.MaxInt64
@@ -588,6 +614,22 @@ func (in *interp) binop(x *ssa.BinOp, a, b AVal) AVal {
 	// symbolic comparisons
 	if isCmp && (a.k == aSym || b.k == aSym) {
 		if a.k != aSym || b.k != aSym {
+			// a symbol against an integer constant: answered by an oracle that
+			// places the symbol relative to constants (interval-partition domain)
+			if co, ok := in.or.(ConstOracle); ok {
+				s, c, flip := a, b, false
+				if a.k != aSym {
+					s, c, flip = b, a, true
+				}
+				if c.k == aConst {
+					if r, ok := co.CmpConst(s.sym, c.c); ok {
+						if flip {
+							r = -r
+						}
+						return aBool(cmpHolds(x.Op, r))
+					}
+				}
+			}
 			in.fail("order symbol compared with a non-symbol (%s vs %s) at %s", a.String(), b.String(), in.w.instrPos(x))
 		}
 		if in.or == nil {
